@@ -394,6 +394,9 @@ def main():
     "and all 4^4 = 256 symmetric cross-row graphs for k = 2 with two rows under both orders, in "
     "both modes; sampled part (not exhaustive): asymmetric two-row graphs and k = 4 (k = 5 in "
     "thorough); non-trivial = the graph has at least one cell on a cycle")
+  C06.install_hook()
+  for key in ((1, 1), (2, 1), (3, 1), (2, 2), (4, 1), (5, 1)):   # warm-up in the parent: forked
+    template(*key)                                                # workers inherit the documents
   fn.check(rep, contract("Engine.apply_user_actions [all graphs, k<=3 and k=2 cross-row]"), cases,
            exhaustive=True, limit_quick_s=55)
   exhaustive = rep.coverage.get("exhaustive", False)
